@@ -535,7 +535,7 @@ Definition line_target (b : buf) (rows top : Z) (has : bool) (cnt : Z) (k : mkey
            | Kplus | Kj => Z.min (row + cnt) (len - 1)
            | Kminus | Kk => Z.max (row - cnt) 0
            | Kunder => Z.min (row + cnt - 1) (len - 1)
-           | KG => if has then cnt - 1 else len - 1
+           | KG => if has then Z.min (cnt - 1) (len - 1) else len - 1
            | KH => Z.min (top + cnt - 1) (len - 1)
            | KL => Z.min (top + rows - cnt) (len - 1)
            | KM => Z.min (top + rows / 2) (len - 1)
@@ -652,11 +652,21 @@ Proof.
   - rewrite H3. exact Epc.
 Qed.
 
-(* ---------- the G finding, on the model ---------- *)
+(* the target row of a line motion always exists in a non-empty buffer (counts that overrun are
+   clamped, also for G since the repair of vi_motionln) *)
+Lemma line_target_range b rows top has cnt k row : is_linekey k = true -> 0 <= row < blen b -> 1 <= cnt ->
+  0 <= line_target b rows top has cnt k row < blen b.
+Proof.
+  intros Hk Hr Hc. unfold line_target. destruct k; try discriminate; cbv zeta; try (destruct has); lia.
+Qed.
+Lemma line_target_exists b rows top has cnt k row : is_linekey k = true -> 0 <= row < blen b -> 1 <= cnt ->
+  exists l, getl b (line_target b rows top has cnt k row) = Some l.
+Proof. intros Hk Hr Hc. apply getl_in_range, line_target_range; assumption. Qed.
+
 Definition g_witness : buf := buf_of_bytes [32; 32; 97; 98; 10]%N.       (* "  ab\n" *)
-Lemma g_overrun_witness :
+Lemma g_overrun_fixed :
   match run g_witness 23 [Mot 9 KG] init_vst, run g_witness 23 [Mot 1 KG] init_vst with
-  | Some s9, Some s1 => v_row s9 = 0 /\ v_row s1 = 0 /\ v_off s1 = 2 /\ v_off s9 = 0
+  | Some s9, Some s1 => v_row s9 = 0 /\ v_row s1 = 0 /\ v_off s1 = 2 /\ v_off s9 = 2
   | _, _ => False
   end.
 Proof. vm_compute. repeat split; reflexivity. Qed.
